@@ -516,7 +516,10 @@ fn crash_case(run_seed: u64, tier: Tier, torn: bool) -> Case {
     if torn {
         params.insert("torn".to_string(), 1);
     }
-    params.insert("max_points".to_string(), if tier == Tier::Quick { 48 } else { 100_000 });
+    // every recovery of a crash image spawns tasks inside the base run's execution, and shuttle keeps
+    // a finished task's stack mapped until the execution ends: bound the images per base run so that
+    // 16 workers stay far below vm.max_map_count (thorough goes deeper with more base runs instead)
+    params.insert("max_points".to_string(), if tier == Tier::Quick { 48 } else if torn { 200 } else { 600 });
     params.insert("clean_close".to_string(), (rng.fork("close").below(2)) as i64);
     Case { engine: Engine::Crash, run_seed, plan, sched, schedule: None, fault: None, params, image: None, max_steps: Some(20_000_000), log_plan: None, lock_plan: None, corrupt: None }
 }
@@ -666,13 +669,13 @@ pub fn spec_for(prop: &str) -> Option<CheckSpec> {
         "C02" => crash_spec(
             "C02",
             false,
-            "one evaluation = one crash point: a prefix of the totally ordered log of mutating filesystem operations (create/truncate, write, rename, remove, mkdir) of a recorded base run (4-60 ops quick, -150 thorough: puts, deletes, batches, flushes, compact_range, clean reopen with new options; closed cleanly or left open; a quarter of the base runs end with 2-3 concurrent writers on disjoint keys). For each point the image is materialised and a recovery simulation runs: DB::open (reuse_log_files and sizes drawn per point) must succeed; full scan + get of every key must equal the model of all writes returned before the crash point, plus optionally - as a whole - the batch that was invoked but not returned; then 2-5 further writes, clean close, reopen (possibly flipped reuse_log_files) and the scan must equal model + new writes; with probability 1/6 the recovery run itself is crashed at a seeded prefix of its own log and checked recursively (depth <= 2). distinct_nontrivial = distinct coverage signatures of base runs (LSM shapes of recovered images, set of (operation kind, file class) pairs preceding the crash points).",
+            "one evaluation = one crash point: a prefix of the totally ordered log of mutating filesystem operations (create/truncate, write, rename, remove, mkdir) of a recorded base run (4-60 ops quick, -150 thorough: puts, deletes, batches, flushes, compact_range, clean reopen with new options; closed cleanly or left open; a quarter of the base runs end with 2-3 concurrent writers on disjoint keys). For each point (all points of a base run up to 48 quick / 600 thorough, else the points next to create/rename/remove/truncate first and a seeded sample of the rest) the image is materialised and a recovery simulation runs: DB::open (reuse_log_files and sizes drawn per point) must succeed; full scan + get of every key must equal the model of all writes returned before the crash point, plus optionally - as a whole - the batch that was invoked but not returned; then 2-5 further writes, clean close, reopen (possibly flipped reuse_log_files) and the scan must equal model + new writes; with probability 1/6 the recovery run itself is crashed at a seeded prefix of its own log and checked recursively (depth <= 2). distinct_nontrivial = distinct coverage signatures of base runs (LSM shapes of recovered images, set of (operation kind, file class) pairs preceding the crash points).",
             &["crash@write:wal", "crash@write:table", "crash@write:manifest", "crash@rename:current", "crash@create:temp", "crash@remove:wal", "crash@remove:table", "crash_inside_recovery"],
         ),
         "C16" => crash_spec(
             "C16",
             true,
-            "one evaluation = one torn write: for a write operation of a recorded base run (every write of non-table files, sampled table writes; all in the thorough tier) the image is the log prefix before it plus 1 byte / half / all-but-one / two seeded lengths of its payload. Recovery simulation as for C02 with both reuse_log_files values, 3-11 further acknowledged writes of 10 B-40 KB (some stay in the torn tail's 32 KiB block, some cross it), clean close, reopen: the first open must succeed and show everything acknowledged before the torn write (the torn batch absent or whole); after the second open every write acknowledged after recovery must be present.",
+            "one evaluation = one torn write: for a write operation of a recorded base run (every write of non-table files first, sampled table writes; <=48 writes per base run quick, <=200 thorough) the image is the log prefix before it plus 1 byte / half / all-but-one / two seeded lengths of its payload. Recovery simulation as for C02 with both reuse_log_files values, 3-11 further acknowledged writes of 10 B-40 KB (some stay in the torn tail's 32 KiB block, some cross it), clean close, reopen: the first open must succeed and show everything acknowledged before the torn write (the torn batch absent or whole); after the second open every write acknowledged after recovery must be present.",
             &["crash@torn:write:wal", "crash@torn:write:manifest", "crash@torn:write:table", "crash@torn:write:temp"],
         ),
         _ => return None,
